@@ -50,9 +50,10 @@ def plan(tier, seed):
 def _reference(M, H0m, H1m, keep, orders):
     E = np.diag(H0m).real
     deg = np.abs(E[:, None] - E[None, :]) < 1e-9
-    if np.any(deg & ~keep & (np.abs(H1m) > 0)):
-        # two levels that the perturbation couples directly are degenerate: outside the property's domain
-        raise Inconclusive("accidental degeneracy between levels coupled by the perturbation (outside the domain)")
+    if np.any(deg & ~keep):
+        # two distinct levels of the truncated space that are to be decoupled are degenerate: the perturbation couples
+        # them at some order, which is outside the property's domain (it would need degenerate perturbation theory)
+        raise Inconclusive("accidental degeneracy between levels that are to be decoupled (outside the domain)")
     keep = keep | deg
     with np.errstate(all="ignore"):
         return ref_solve({(0,): np.diag(E).astype(complex), (1,): H1m}, keep, orders, hermitian=True, exact=False)
